@@ -153,12 +153,14 @@ func GenLossyOpts(r *RNG, metaPct int, heavy bool) OptSpec {
 		if r.Pct(15) {
 			o.Pass = r.Range(2, 4)
 		}
-		if r.Pct(8) {
-			o.TargetSize = r.Range(200, 3000)
-			o.Pass = r.Range(1, 4)
+		if r.Pct(12) {
+			// rate control: few and many passes (the search takes small last steps only
+			// when it is given room), targets from unreachable to generous
+			o.TargetSize = r.Pick(r.Range(200, 3000), r.Range(200, 3000), r.Range(1000, 8000), r.Range(20, 200))
+			o.Pass = r.Pick(1, 2, 3, 4, 6, 8, 10)
 		} else if r.Pct(8) {
 			o.TargetPSNR = float32(r.Range(28, 45))
-			o.Pass = r.Range(1, 4)
+			o.Pass = r.Pick(1, 2, 3, 4, 6, 10)
 		}
 	}
 	if r.Pct(50) {
